@@ -12,6 +12,6 @@ func init() {
 		pRetryExact: 12, pRetryConfl: 4, pStaleAuth: 4, pEqualAuth: 10, pFenced: 2,
 		pScenario: 30, pSmallCap: 10, maxOps: 30, pWrongExpect: 4,
 		pBareQuorum: 26, pLostAcks: 22, pMinorityResp: 30,
-		pRepair: 9, pMdb: 15, pSameTerm: 12,
+		pRepair: 9, pMdb: 15, pSameTerm: 12, pStaleBatch: 3,
 	}), NewRunner: func() Runner { return newReplRunner() }})
 }
